@@ -59,6 +59,11 @@ pub fn boundary_len(rng: &mut ChaCha20Rng, big: bool) -> usize {
 }
 pub fn rscript(rng: &mut ChaCha20Rng, big: bool) -> Script { { let n = boundary_len(rng, big); Script::from(rbytes(rng, n)) } }
 pub fn rstack(rng: &mut ChaCha20Rng, big: bool) -> Vec<Vec<u8>> {
+    // rarely: element counts on both sides of the one-byte varint limit (then with tiny elements)
+    if rng.gen_range(0..14) == 0 {
+        let n = pk!(rng, [0xfcusize, 0xfd, 0xfe, 0x100]);
+        return (0..n).map(|_| { let l = rng.gen_range(0..3); rbytes(rng, l) }).collect();
+    }
     let n = pk!(rng, [0usize, 0, 1, 2, 3, 5]);
     (0..n).map(|_| { let l = boundary_len(rng, big); rbytes(rng, l) }).collect()
 }
@@ -134,8 +139,11 @@ pub fn rtxout(rng: &mut ChaCha20Rng, f: Feat, tags: &mut Vec<String>) -> TxOut {
     o
 }
 pub fn rtx(rng: &mut ChaCha20Rng, f: Feat, tags: &mut Vec<String>) -> Transaction {
-    let nin = pk!(rng, [0usize, 1, 1, 2, 3, 5]);
-    let nout = pk!(rng, [0usize, 1, 1, 2, 3, 6]);
+    let mut nin = pk!(rng, [0usize, 1, 1, 2, 3, 5]);
+    let mut nout = pk!(rng, [0usize, 1, 1, 2, 3, 6]);
+    // rarely: input / output counts on both sides of the one-byte varint limit
+    match rng.gen_range(0..40) { 0 => nin = pk!(rng, [0xfcusize, 0xfd, 0x100]), 1 => nout = pk!(rng, [0xfcusize, 0xfd, 0x100]), _ => {} }
+    let f = if nin > 100 || nout > 100 { Feat { big: false, ..f } } else { f };
     let mut f = f;
     match rng.gen_range(0..6) { 0 => f.no_witness = true, _ => {} }
     let wit_side = rng.gen_range(0..4); // 1: only inputs, 2: only outputs
